@@ -26,7 +26,7 @@ CHUNK = 1
 
 BASES = [[(0, 2, 2)], [(2, 1, 1)], [(1, 2, 1), (0, 1, 2)], [(3, 1, 1), (1, 1, 2)], [(4, 2, 1), (0, 2, 1)],
          [(0, 1, 1), (1, 1, 1), (2, 2, 2)], [(2, 1, 2), (3, 2, 1), (1, 3, 1)], [(0, 3, 1), (1, 2, 2), (2, 1, 1), (4, 1, 1)]]
-DENS = ["psd1", "psd", "indef", "diag", "zero"]
+DENS = ["psd1", "psd", "indef", "diag", "zero", "zerodiag"]
 TRANS = ["none", "square", "rect"]
 ALPHAS = [0, 0.5, 1, -0.7, 2.5]
 
@@ -39,7 +39,7 @@ def orders_for(tier):
 
 
 def bounds(tier):
-    return {"bases": len(BASES) if tier != "quick" else 4, "type_patterns": "all 2^n", "density_classes": 5,
+    return {"bases": len(BASES) if tier != "quick" else 4, "type_patterns": "all 2^n", "density_classes": 6,
             "transforms": 3, "orders": len(orders_for(tier)), "backends": 2, "alphas": ALPHAS,
             "threshold_factors": [0.5, 0.99, 1.01, 2, "default"]}
 
@@ -83,6 +83,11 @@ def density_matrix(kind, k):
         return X @ X.T
     if kind == "indef":
         return (X + X.T) / 2
+    if kind == "zerodiag":
+        g = (X + X.T) / 2
+        g[0, 0] = 0.0
+        g[-1, -1] = 0.0
+        return g
     if kind == "diag":
         return np.diag(np.abs(X[0]) + 0.1)
     return np.zeros((k, k))
